@@ -29,6 +29,7 @@ OVERRIDE = "override_raise_controller_value_errors"
 
 
 def run(repo: Repo, rep, tier: str):
+    rep.count("files_in_scope", repo.consult_all())
     single_writer(repo, rep, "C18")
     restore_rule(repo, rep, "C18")
     file_typestate(repo, rep, "C18")
